@@ -1,0 +1,18 @@
+//go:build verif
+
+// C01 (owner: con-c01b): what pkg/verification.VerifyDocument needs to know about the wire -> store conversions.
+package schema
+
+import "crypto/sha256"
+
+// Ghost_HdrAlh(hdr): the accumulated linear hash (Alh) of the store header a wire header converts to, i.e.
+// TxHeaderFromProto(hdr).Alh(). It is a ghost function: an uninterpreted function of the IDENTITY of the wire header
+// (never unfolded). It is DEFINED by the clause `c01b_def_alh` of TxHeaderFromProto, which is therefore not provable
+// against the body of TxHeaderFromProto; the assumption it carries: converting the same (unmodified) wire header twice
+// gives headers with equal Alh (the conversion is deterministic; the two results differ only in the identity of the
+// freshly built *store.TxMetadata).
+func Ghost_HdrAlh(hdr *TxHeader) [sha256.Size]byte { return TxHeaderFromProto(hdr).Alh() }
+
+// CheckSignature serialises the state and verifies the signature: reads only (assumed frame).
+//@ func (*ImmutableState).CheckSignature
+//@   assigns nothing
